@@ -11,6 +11,9 @@ A .vrs file is a sequence of sections introduced by `//@` directive lines:
       //@ pubfields                          struct: make every field `pub`
       //@ spec                               following lines go between signature and body
       //@ at <anchor>                        following lines are inserted at the anchor
+      //@ closure#N |typed params| -> (r: T) the N-th closure of the fn gets explicit parameter types, a named result and the
+                                             following requires/ensures lines; an expression body is wrapped in `{ }`.
+                                             The closure's body text is unchanged (Verus does not infer closure contracts).
   //@ end
 
 Anchors (all structural, resolved on the token stream of the *current* repository text):
@@ -59,7 +62,7 @@ def parse_vrs(text):
             cur = Section("extract", arg); secs.append(cur); sub = None
         elif d == "end":
             cur = None; sub = None
-        elif d in ("rename", "ret", "nopub", "pubfields", "spec", "at", "optional-rename"):
+        elif d in ("rename", "ret", "nopub", "pubfields", "spec", "at", "optional-rename") or d.startswith("closure#"):
             if cur is None or cur.kind != "extract":
                 raise ValueError("directive %s outside extract" % d)
             sub = [d, arg, []]
@@ -133,6 +136,39 @@ def _loops_and_ifs(S, item):
             ifs[nif] = d
         i += 1
     return loops, ifs
+
+
+def _closures(S, item):
+    """Closures of a fn body in source order: dicts bar_start, bar_end (span of `|params|`), params (text), body (start, end), block."""
+    ct = S.ct
+    lo, hi = item.ct_range
+    bi = next(i for i in range(lo, hi) if ct[i].start == item.body[0])
+    out = []
+    i = bi + 1
+    while i < hi - 1:
+        t = ct[i]
+        if t.kind == PUNCT and t.text == "|" and (ct[i - 1].text in ("(", ",", "=", "{", ";", "move", "return")):
+            if ct[i + 1].text == "|" and ct[i + 1].start == t.end:
+                pe = i + 1
+            else:
+                pe = i + 1
+                while ct[pe].text != "|":
+                    if ct[pe].text in ("(", "["): pe = match_close(ct, pe)
+                    pe += 1
+            if ct[pe + 1].text == "{":
+                be = match_close(ct, pe + 1)
+                body, block, nxt = (ct[pe + 1].start, ct[be].end), True, be + 1
+            else:
+                j = pe + 1
+                while not (ct[j].kind == PUNCT and ct[j].text in (",", ")", "]", "}", ";")):
+                    if ct[j].text in ("(", "[", "{"): j = match_close(ct, j)
+                    j += 1
+                body, block, nxt = (ct[pe + 1].start, ct[j - 1].end), False, pe + 1
+            out.append(dict(bar_start=t.start, bar_end=ct[pe].end, params=S.text[t.end:ct[pe].start], body=body, block=block))
+            i = nxt
+            continue
+        i += 1
+    return out
 
 
 def _sig_edits(S, item, ret_name, nopub, spec_text):
@@ -266,7 +302,7 @@ def extract_item(gen, repo, sec, sources):
     except KeyError as e:
         raise LostAnchor(str(e))
     ret_name, nopub, pubfields, spec_text = None, False, False, ""
-    renames, ats = [], []
+    renames, ats, closures = [], [], []
     for d, arg, lines in sec.subs:
         if d == "ret": ret_name = arg
         elif d == "nopub": nopub = True
@@ -276,6 +312,7 @@ def extract_item(gen, repo, sec, sources):
             a, _, b = arg.partition("=>")
             renames.append((a.strip(), b.strip()))
         elif d == "at": ats.append((arg, "\n".join(lines)))
+        elif d.startswith("closure#"): closures.append((int(d[8:]), arg, "\n".join(lines)))
     edits = []
     if item.kind == "fn":
         edits += _sig_edits(S, item, ret_name, nopub, spec_text)
@@ -292,6 +329,23 @@ def extract_item(gen, repo, sec, sources):
                 continue
             off = _anchor_offset(S, item, loops, ifs, anchor)
             edits.append((off, off, "\n" + text.rstrip() + "\n"))
+        if closures:
+            found = _closures(S, item)
+            for n, header, text in closures:
+                if n > len(found): raise LostAnchor("closure#%d in %s" % (n, item.name))
+                c = found[n - 1]
+                m = re.match(r"\|(.*)\|\s*->\s*\((.*)\)\s*$", header)
+                if not m: raise ValueError("bad closure header %r" % header)
+                want = set(re.findall(r"[A-Za-z_]\w*", re.sub(r":[^,|]*", "", m.group(1))))
+                have = set(x for x in re.findall(r"[A-Za-z_]\w*", c["params"]) if x != "mut")
+                if not have <= want:
+                    raise LostAnchor("closure#%d in %s: parameters changed (%s)" % (n, item.name, c["params"].strip()))
+                edits.append((c["bar_start"], c["bar_end"], "|%s| -> (%s)\n%s\n" % (m.group(1), m.group(2), text.rstrip())))
+                if not c["block"]:
+                    edits.append((c["body"][0], c["body"][0], "{ "))
+                    edits.append((c["body"][1], c["body"][1], " }"))
+                gen.rewrites.append("%s: closure #%d `|%s|` given explicit parameter types, a named result and a contract (body text unchanged) at %s:%d"
+                                    % (spec, n, c["params"].strip(), rel, S.line_of(c["bar_start"])))
     else:
         ct = S.ct
         lo, hi = item.ct_range
